@@ -19,4 +19,10 @@ META = {
         bounds_thorough="decoder depth 4 (BFS), unmerged depth 4 on buffers <=2; IPP: all ordered pairs, 64 KiB document",
         assumptions=COMMON_ASSUME + ["decoder state canonicalisation: methods read only (data, offset) and write only (offset, lasterror) - cross-checked by the unmerged sequence enumeration"],
     ),
+    "C06": dict(
+        rule="every configuration is run through the real server.New+Run wiring in a bubble: channel sets {c1},{c1,c2},{c1,c2,c3},{} x all filter lists of length 0..2 over the full 216-filter alphabet (6 channel lists incl. duplicate and unknown names x 6 category lists x 6 service lists incl. absent, empty, anchors, alternation) plus length 3 (thorough: 4) over a pairwise-complete 36-filter alphabet; 12 events (category/service over a,b,ab,'',missing,int) are put on the real bus through the channel handle a service receives; per-channel ordered delivery lists are compared with a reference routing model, the token with the sensor token, and each channel's list with a real run of the configuration projected on that channel alone. Distinct = distinct per-channel delivery outcomes.",
+        bounds_quick="filters <=2 full alphabet, 3 reduced; 12 events",
+        bounds_thorough="filters <=2 full alphabet, 3-4 reduced; 12 events",
+        assumptions=COMMON_ASSUME + ["an empty (but present) expression list is treated like an absent one, as the wiring does; missing or non-string category/service match as the empty string"],
+    ),
 }
